@@ -23,7 +23,13 @@ CHECKS = {
 SCHED = "stateless model checking: exhaustive preemption-bounded schedule enumeration of real threads under a cooperative scheduler"
 COMP = "exhaustive enumeration of inputs / operation sequences on the real component"
 QEXPR = "exhaustive enumeration of small value tuples / lists substituted into query templates executed by the real engine"
+QUPD = "exhaustive enumeration of update-statement sequences over all initial graphs of a bounded scope, real engine vs reference update semantics"
 CHECKS.update({
+ "C12": ("E-QUERY", QUPD, "All enabled sequences up to the bound over 27 update statements on all initial graphs of the scope; after every statement the graph read back through Cypher must equal the reference model; change counts must agree between execute_mixed, execute_write and the C API and must not be zero for a statement that changed the graph.", "reference update semantics in qupd.rs; parallel same-type relationships are outside the scope", "3/C12"),
+ "C13": ("E-QUERY", QUPD, "11 failing statements x all initial graphs x 6 execution modes (Rust and C API auto-commit; explicit C API transaction alone / after / before / between successful statements): the final graph must equal the script without the failing statement.", "labels interned by a failing statement are not observable and not judged", "3/C13"),
+ "C14": ("E-QUERY", QUPD, "All sequences up to the bound over 12 create / delete statements (incl. create-then-delete inside one statement) on all two-node initial graphs, auto-commit and pairs inside one explicit transaction; after every commit no traversal (outgoing, incoming, undirected, storage iterators) returns a relationship with a missing endpoint and DELETE of a connected node is refused.", "", "3/C14"),
+ "C19": ("E-QUERY", "exhaustive enumeration of (base query, predicate, graph) triples; metamorphic partition law on the real engine", "For every base query, predicate and graph of the scope: rows(WHERE p) + rows(WHERE NOT p) + rows(WHERE p IS NULL) = rows() as multisets, with the predicate on the MATCH and after WITH.", "reference-free (metamorphic)", "3/C19"),
+ "C24": ("E-QUERY", QUPD, "All sequences up to the bound of dependent statements inside one explicit C API transaction, on an empty and on a pre-populated database, compared with the same statements as separate auto-commit statements.", "recorded known finding: statements do not see the transaction's own writes", "3/C24"),
  "C20": ("E-QUERY", QEXPR, "All lists up to the bound over a 33-value alphabet through UNWIND .. ORDER BY [DESC] [SKIP] [LIMIT]: permutation, adjacent-pair order against a reference comparator (only where Cypher's order is uncontroversial), independence of the input permutation, slices; plus a two-key family.", "cross-type order and date-like strings are judged only by permutation invariance", "3/C20"),
  "C21": ("E-QUERY", QEXPR, "All lists up to the bound over numeric boundary values (and mixed-type lists for count/collect), with all grouping-key lists of the same length: count(*), count, sum, avg, min, max, collect, DISTINCT variants against a direct fold with exact arithmetic.", "sum may be an exact Int, an error, or a Float close to the exact value - never a wrapped Int", "3/C21"),
  "C22": ("E-QUERY", QEXPR, "Failing expressions x failing-row position x 22 result operators (RETURN, DISTINCT, UNION [ALL] either arm, ORDER BY, WITH, aggregates, CALL {}, SKIP, LIMIT, comprehension, CASE and nestings); a control run with good rows must succeed, the run with one bad row must report an error.", "early-terminating operators are only used with the failing row inside the consumed prefix", "3/C22"),
